@@ -176,7 +176,7 @@ let sent_of_step (step_obs : Sexp.t) : Sexp.t option option =
   if List.exists (fun e -> e = Sexp.L [Sexp.A "skipped"]) entries then Some None
   else
     match List.find_opt (fun e -> match e with Sexp.L (Sexp.A "sent" :: _) -> true | _ -> false) entries with
-    | Some (Sexp.L [Sexp.A "sent"; _; p]) -> Some (Some p)
+    | Some (Sexp.L (Sexp.A "sent" :: _ :: p :: _)) -> Some (Some p)
     | _ -> None
 
 let event_of_sx (step : Sexp.t) (step_obs : Sexp.t) : event option = match Sexp.list step with
@@ -214,7 +214,7 @@ let not_takeover x = match x with Sexp.L [Sexp.A "disconnect"; Sexp.A "142"; _] 
 let impl_step_obs (step_obs : Sexp.t) : (int * Sexp.t list * bool) list =
   let entries = match step_obs with Sexp.L (Sexp.A "s" :: es) -> es | _ -> failwith "step obs" in
   List.sort compare (List.filter_map (fun e -> match e with
-      | Sexp.L [c; Sexp.L (Sexp.A "pkts" :: ps); Sexp.L [Sexp.A "open"; o]] when (match c with Sexp.A a -> a <> "sent" && a <> "inspect" | _ -> false) ->
+      | Sexp.L (c :: Sexp.L (Sexp.A "pkts" :: ps) :: Sexp.L [Sexp.A "open"; o] :: _) when (match c with Sexp.A a -> a <> "sent" && a <> "inspect" | _ -> false) ->
         Some (int_of_sx c, List.filter not_takeover (List.map canon_pkt ps), bool_of_sx o)
       | _ -> None) entries)
 
@@ -291,14 +291,14 @@ let sx_steps steps =
   Sexp.L (List.map (fun step -> Sexp.L (Sexp.A "s" :: List.map (fun (c, pk, o) ->
       Sexp.L [sx_int c; Sexp.L (Sexp.A "pkts" :: pk); Sexp.L [Sexp.A "open"; sx_bool o]]) step)) steps)
 
-type oracle_fn = cfg -> hooks -> Sexp.t list (* scenario steps *) -> (int * Sexp.t list * bool) list list (* impl obs *) -> Sexp.t list (* raw impl steps *) -> bool * string
+type oracle_fn = cfg -> hooks -> Sexp.t list (* scenario steps *) -> (int * Sexp.t list * bool) list list (* impl obs *) -> Sexp.t list (* raw impl steps *) -> bool * string * string   (* ok, known-finding name or "-", explanation *)
 
 exception Unsupported of string
 
 let rec run_with (oracle : oracle_fn) (input : Sexp.t) (impl : Sexp.t) : Verdict.t =
   try run_with' oracle input impl
   with Unsupported what ->
-    { Verdict.agree = true; oracle = true; kf = "-"; nontrivial = false; cls = "unsupported_" ^ what; model = Sexp.A "unsupported" }
+    { Verdict.agree = true; oracle = true; kf = "-"; nontrivial = false; cls = "unsupported_" ^ what; model = Sexp.A "unsupported"; why = "" }
 
 and run_with' (oracle : oracle_fn) (input : Sexp.t) (impl : Sexp.t) : Verdict.t =
   let cfg = cfg_of_sx (Sexp.L (Sexp.field "cfg" input)) in
@@ -360,7 +360,7 @@ and run_with' (oracle : oracle_fn) (input : Sexp.t) (impl : Sexp.t) : Verdict.t 
   let cands = List.map (fun (_, acc) -> rename_pids (List.rev acc)) paths in
   let mobs = match List.find_opt (fun m -> m = iobs) cands with Some m -> m | None -> (match cands with m :: _ -> m | [] -> []) in
   let agree = (mobs = iobs) in
-  let (ok, kf) = oracle cfg hooks steps (List.map impl_step_obs isteps) isteps in
+  let (ok, kf, why) = oracle cfg hooks steps (List.map impl_step_obs isteps) isteps in
   let npub = List.length (List.filter (fun st -> List.exists (fun (_, pk, _) -> List.exists (fun p -> key_tp p <> None) pk) st) iobs) in
   { Verdict.agree; oracle = ok; kf; nontrivial = npub >= 1 && n >= 5;
     cls = Printf.sprintf "steps%s_pub%s" (if n < 12 then "lt12" else "ge12") (if npub = 0 then "0" else if npub < 4 then "lt4" else "ge4");
@@ -371,7 +371,8 @@ and run_with' (oracle : oracle_fn) (input : Sexp.t) (impl : Sexp.t) : Verdict.t 
                  | _, _ -> Some (k, [], []) in
                match first 0 iobs mobs with
                | Some (k, i, m) -> Sexp.L [Sexp.A "first_diff_step"; sx_int k; Sexp.L [Sexp.A "impl"; sx_steps i]; Sexp.L [Sexp.A "model"; sx_steps m]]
-               | None -> Sexp.A "lengths") }
+               | None -> Sexp.A "lengths");
+    why }
 
-let no_oracle : oracle_fn = fun _ _ _ _ _ -> (true, "-")
+let no_oracle : oracle_fn = fun _ _ _ _ _ -> (true, "-", "")
 let run = run_with no_oracle
